@@ -97,8 +97,9 @@ def formula_text(b, terms, ranges):
 class WB:
     """cells[i] = dict(stored=Fraction|None, formula=None|(b, [(kind, a, idx)])); ranges = [(addr, members)]"""
 
-    def __init__(self, cells, ranges, kind, with_data):
+    def __init__(self, cells, ranges, kind, with_data, scale=Fr(1)):
         self.cells, self.ranges, self.kind, self.with_data = cells, ranges, kind, with_data
+        self.scale = scale      # every constant, stored result and formula offset is a multiple of this power of two
 
     def refs(self, i):
         f = self.cells[i]['formula']
@@ -303,6 +304,27 @@ def gen_ops(rng, wb, fast):
     return ops
 
 
+# ------------------------------------------------------------------ magnitude sweep
+def pick_scale(rng):
+    """2^-k or 2^+k, k in 1..70; half of the small ones are at or beyond the resolution of doubles near 1
+    (tolerances 2^-k, 2^-k/16, 2^-k/1024 below 2^-52)."""
+    k = rng.randrange(1, 71) if rng.random() < 0.5 else rng.randrange(43, 71)
+    return Fr(1, 2 ** k) if rng.random() < 0.65 else Fr(2 ** k)
+
+
+def rescale(wb, ops, s):
+    """The same system in other units: constants, stored results, formula offsets, written values and
+    tolerances multiplied by the power of two s; the coefficients (the contraction) stay.  Multiplying by a
+    power of two is exact in binary floating point, so the scaled history is the unscaled one times s, pass
+    for pass - when the tolerance is honoured at every magnitude."""
+    cells = [dict(stored=None if c['stored'] is None else c['stored'] * s,
+                  formula=None if c['formula'] is None else (c['formula'][0] * s, list(c['formula'][1])))
+             for c in wb.cells]
+    ops2 = [(o[0], o[1], o[2], o[3] * s) if o[0] == 'eval' else
+            (o[0], o[1], None if o[2] is None else o[2] * s) for o in ops]
+    return WB(cells, wb.ranges, wb.kind, wb.with_data, scale=wb.scale * s), ops2
+
+
 # ------------------------------------------------------------------ wire
 def enc_q(q):
     q = Fr(q)
@@ -437,11 +459,16 @@ class Impl:
         return out
 
 
-def exact(obs):
-    """every number of the model's answer is a double (so the implementation's floats were exact)"""
+def exact(obs, scale=Fr(1)):
+    """every number of the model's answer is a double (so the implementation's floats were exact); for a
+    rescaled workbook the numbers are judged in units of its scale (a power of two, 2^-70..2^70: far from
+    overflow and from the subnormal range, so the scaled operations round exactly as the unscaled ones)"""
     def ok(q):
         # 48 bits leave room for the intermediate sums b + a1*x1 + ... of one formula
-        return q is None or (abs(q.numerator) < 2 ** 48 and q.denominator <= 2 ** 48 and Fr(float(q)) == q)
+        if q is None:
+            return True
+        u = q / scale
+        return abs(u.numerator) < 2 ** 48 and u.denominator <= 2 ** 48 and Fr(float(q)) == q
     for o in obs:
         if o['kind'] == 'raise':
             continue
@@ -560,7 +587,7 @@ def compare(ctx, wb, ops, label, iobs, mobs):
     if any(m['kind'] == 'raise' and m['exc'] in ('Unmodelled', 'OutOfFuel') for m in mobs):
         ctx.histogram['unmodelled'] = ctx.histogram.get('unmodelled', 0) + 1
         return
-    if not exact(mobs):
+    if not exact(mobs, wb.scale):
         ctx.histogram['inexact-skipped'] = ctx.histogram.get('inexact-skipped', 0) + 1
         return
     if len(iobs) != len(mobs):
@@ -651,7 +678,10 @@ def run(ctx):
         "(1-6 variable cells in 1-2 rings incl. self references, dyadic coefficients, optional constants and "
         "SUM(range) terms, with and without stored results) and acyclic workbooks (random DAG order, "
         "SUM over column/row/block ranges, stored results exact); targets drawn at random so that cells "
-        "enter the model in different orders; a case is non-trivial when its (workbook, history) is distinct")
+        "enter the model in different orders; magnitude sweep: the same generators with every constant, stored "
+        "result, formula offset, written value and tolerance multiplied by 2^-k or 2^k, k in 1..70 (half of the "
+        "small ones with tolerances below 2^-52, the resolution of doubles near 1; exact in binary, so model "
+        "and implementation still agree bit for bit); a case is non-trivial when its (workbook, history) is distinct")
     digest = anchor_digest(REPO)
     ctx.extra['anchor_digest'] = digest
     # informational only: the differential run below is the checked tie.  (A mismatch used to be reported as a
@@ -660,7 +690,7 @@ def run(ctx):
     ctx.extra['anchor_digest_at_transcription'] = ANCHOR_DIGEST
     file_smoke(ctx, impl)
     cases = [(wb, ops, label) for wb, ops, label in crafted(rng)]
-    for k in range(ctx.n(9000, 60000)):
+    for k in range(ctx.n(7800, 60000)):
         r = rng.random()
         if r < 0.6:
             fast = rng.random() < 0.7
@@ -669,6 +699,16 @@ def run(ctx):
             fast = True
             wb = gen_acyclic(rng)
         cases.append((wb, gen_ops(rng, wb, fast), None))
+    # magnitude sweep: the same kinds of workbooks and histories in other units (x 2^-70 .. 2^70), tolerances alike
+    for k in range(ctx.n(1200, 12000)):
+        if rng.random() < 0.8:
+            fast = rng.random() < 0.7
+            wb = gen_cyclic(rng, fast)
+        else:
+            fast = True
+            wb = gen_acyclic(rng)
+        wb, ops = rescale(wb, gen_ops(rng, wb, fast), pick_scale(rng))
+        cases.append((wb, ops, None))
     runs = []
     for wb, ops, label in cases:
         runs.append((wb, ops, label, impl.run(wb, ops)))
@@ -678,7 +718,8 @@ def run(ctx):
         for idx, o in enumerate(ops):
             ctx.count((key, idx),
                       kind=f"{wb.kind}:{'data' if wb.with_data else 'nodata'}:{o[0]}"
-                           f"{':range' if wb.ranges else ''}",
+                           f"{':range' if wb.ranges else ''}"
+                           f"{'' if wb.scale == 1 else ':scaled-down' if wb.scale < 1 else ':scaled-up'}",
                       sample=dict(call='history', workbook=wb.describe(),
                                   ops=[[o2[0], addr(o2[1])] + list(o2[2:]) for o2 in ops],
                                   impl=[(ob.get('result'), ob.get('passes')) for ob in iobs]))
